@@ -146,11 +146,14 @@ func objectDefineProperties(rt *runtime, obj *object, propertiesValue Value) {
 	properties := rt.toObject(propertiesValue)
 	var names []string
 	var descriptors []property
+	// step 3: the list of own enumerable names is fixed before any descriptor is read
 	properties.enumerate(false, func(name string) bool {
 		names = append(names, name)
-		descriptors = append(descriptors, toPropertyDescriptor(rt, properties.get(name)))
 		return true
 	})
+	for _, name := range names {
+		descriptors = append(descriptors, toPropertyDescriptor(rt, properties.get(name)))
+	}
 	for index, name := range names {
 		obj.defineOwnProperty(name, descriptors[index], true)
 	}
